@@ -182,6 +182,12 @@ func ensureBuilt(tier string) (*buildInfo, error) {
 				eb, ed := fe.BuildBatches(sup, evo, opt, chk, len(evo), true, 9000)
 				batches = append(batches, eb...)
 				dropped = append(dropped, ed...)
+				// records using types of a separately generated imported file: one atomic batch plus the imported package
+				ib, id := fe.BuildImportBatch(schema.ImportCases(), opt, chk, 9500, "codecwork/gen")
+				if ib != nil {
+					batches = append(batches, ib)
+				}
+				dropped = append(dropped, id...)
 			}
 			bi.Dropped = append(bi.Dropped, dropped...)
 			for _, b := range batches {
@@ -286,6 +292,8 @@ func runWorkers(bi *buildInfo, prop, tier string, extra []string) ([]*codeccheck
 				cmd := exec.Command("bash", append([]string{"-c", sh, j.bin}, args...)...)
 				var stdout, stderr bytes.Buffer
 				cmd.Stdout, cmd.Stderr = &stdout, &stderr
+				// a worker must not outlive the orchestrator (it may be killed from outside)
+				cmd.SysProcAttr = &syscall.SysProcAttr{Pdeathsig: syscall.SIGKILL}
 				// hang watchdog: a case normally takes milliseconds; no new progress marker for 120 s means the
 				// worker is stuck inside one call (runaway loop) and is killed, which is attributed like a crash
 				hung := false
